@@ -150,6 +150,13 @@ def run(tier, replay=None):
     nworkers = int(os.environ.get("VERIF_C20_WORKERS", "12" if tier == "thorough" else "8"))
     nworkers = max(1, min(nworkers, len(cfgs)))
     base = os.path.join(common.BUILD, "c20")
+    # the worker directories are re-used from run to run (dependency cache) and each holds ONE configuration at a time:
+    # two C20 runs at once (quick and thorough, two seeds) would execute each other's binaries, so they take turns
+    os.makedirs(base, exist_ok=True)
+    import fcntl
+    lockf = open(os.path.join(base, ".lock"), "w")
+    fcntl.flock(lockf, fcntl.LOCK_EX)
+    out.t0 = __import__("time").time()
     q = queue.Queue()
     # order: put the full set first so every worker warms its dependency cache early, then the rest
     for c in cfgs:
